@@ -155,6 +155,10 @@ func Unset(doc Doc, path string) interface{} {
 	return res
 }
 
+// maxBackfill is the maximum number of null elements a put beyond the end of
+// an array may add.
+const maxBackfill = 1500000
+
 func put(v interface{}, path string, value interface{}, prepend bool, set func(interface{})) (interface{}, bool) {
 	// check path
 	if path == PathEnd {
@@ -228,6 +232,13 @@ func put(v interface{}, path string, value interface{}, prepend bool, set func(i
 
 		// check if unset
 		if value == Missing {
+			return Missing, false
+		}
+
+		// refuse to backfill an unreasonable number of elements (MongoDB
+		// rejects more than 1500000; an index near the integer limit would
+		// otherwise overflow the loop bound or exhaust memory)
+		if index-len(arr) > maxBackfill {
 			return Missing, false
 		}
 
